@@ -195,4 +195,14 @@ PROPS = {
         level_text="Both blob-reading paths of gitindex.IndexGitRepo on generated repositories must produce exactly one document per distinct (path, content) pair with the branch list of the branches that contain it, the blob content or a skip marker for binary/too-large blobs, and must agree with each other, for every chunking of the cat-file stream; a cat-file stream that ends early or whose child is killed must make the run fail and leave the previously installed index unchanged.",
         level_note="Samples repositories and fault positions.",
     ),
+    "C38": dict(
+        group="buildsim", level="exploration",
+        rule="one run = one history: index a fixed 5-document repository (small, medium, large, many-trigram and source files) with option set A; change 0-2 of {SizeMax, TrigramMax, LargeFiles, branch version, branch set, URL, RawConfig}; optionally run a build with the new options that is killed at a fault-stream-chosen mutation; then ask IndexState/IncrementalSkipIndexing and compare the searchable content with a fresh full build with the new options. distinct_nontrivial = distinct (A, B, kill point) tuples.",
+        harnesses=[dict(name="C38", workers=4, quick=400, thorough=20000, quick_deadline_s=170, thorough_deadline_s=1500, ulimit_kb=24000000, env={"VERIF_GCPERCENT": "200", "VERIF_MEMLIMIT_MB": "2048"})],
+        expect_faults=["kill"],
+        components=B_COMPONENTS, assumptions=["claim limited to the history/crash dimension; the option cross-product is sampled over the options that change which content gets indexed without ctags (SizeMax, TrigramMax, LargeFiles), branches and mutable metadata", "reference = a fresh full build with the new options (self-differential)"],
+        technique="deterministic simulation of histories with fault injection: seeded option/branch/metadata changes and killed builds between two indexing decisions; the incremental decision is checked against a fresh full build",
+        level_text="Whenever Options.IncrementalSkipIndexing says 'skip', the installed index must be searchable-identical to a fresh full build with the new options (documents, skip markers, contents, branches, versions); an unchanged repository must be skipped; a change of only URL/RawConfig must be classified as metadata-only.",
+        level_note="Samples histories; ctags-dependent options are not exercised (no ctags binary in the sandbox).",
+    ),
 }
